@@ -433,6 +433,22 @@ impl Mon {
           out.push(v(2, "unjustified-output-key", format!("after {} the output holds {} which is neither physically held nor output of a mapping whose trigger keys are all held (physical {:?})", ev_text(input), key_name(*x), phys_after.names())));
         }
       }
+      if !nonabs && is_press {
+        // absorbing layouts: the mapping whose distinguished key is pressed in this step has
+        // just fired and is in effect now; "in effect" for the justifying mapping is read in
+        // the widest sense (all of its trigger keys are held)
+        for (_t, o) in &pressed_tags {
+          let m = info.m(*o);
+          if !phys_after.contains_all(&m.from) {
+            continue;
+          }
+          for t in &m.from {
+            if out_after.contains(*t) && !layout.mappings.iter().any(|m2| m2.to.contains(t) && phys_after.contains_all(&m2.from)) {
+              out.push(v(2, "trigger-key-not-consumed", format!("after {} trigger key {} of mapping {} (fired in this step) is down on the output although no mapping whose trigger keys are all held outputs it", ev_text(input), key_name(*t), mapping_text(m))));
+            }
+          }
+        }
+      }
       if nonabs {
         for &j in in_effect_after.iter() {
           for t in &info.m(j as usize).from {
